@@ -404,9 +404,10 @@ func (m *pkMat) pkiYAML(c *hx.Ctx, cd pkCand, ca pkCA) string {
 	}
 	switch cd.lerr {
 	case pkLerrGarbageCert:
+		// the LAST block: encoding/pem skips a malformed block that is followed by a well-formed one (the files then
+		// simply are the remaining certificate), so only a malformed final block is a definite load error
 		if len(certs) > 0 {
-			i := c.Intn(len(certs))
-			certs[i] = pkGarble(certs[i])
+			certs[len(certs)-1] = pkGarble(certs[len(certs)-1])
 		}
 	case pkLerrDuplicate:
 		if cd.v1 != nil && pick(true) {
@@ -462,7 +463,10 @@ func (m *pkMat) pkiYAML(c *hx.Ctx, cd pkCand, ca pkCA) string {
 	text := strings.Join(bundle, "")
 	switch ca.kind {
 	case pkCaReadable:
-		if c.Chance(0.15) {
+		if text == "" { // a readable file without a single certificate in it
+			text = []string{"", "\n", "  \n\n"}[c.Intn(3)]
+		}
+		if strings.TrimSpace(text) == "" || c.Chance(0.15) {
 			m.serial++
 			p := filepath.Join(m.dir, fmt.Sprintf("ca-%d.crt", m.serial))
 			pkMust(os.WriteFile(p, []byte(text), 0o600))
@@ -722,7 +726,8 @@ func pkSampleCA(c *hx.Ctx) pkCA {
 		ca.kind = 1 + c.Intn(pkCaKinds-1)
 	}
 	// the authorities named in the bundle
-	switch c.Intn(6) {
+	switch c.Intn(12) {
+	case 11: // none at all
 	case 0: // only expired ones
 		ca.cas = []int{pkCAsPerCurve}
 		if c.Chance(0.5) {
@@ -819,6 +824,9 @@ func (m *pkMat) certOutcome(before *pkObs, beforePtr *nebula.CertState, after ne
 	want := pkStateOf(cd)
 	if pkStateEq(want, o.st) && pkIntsEq(o.eff, pkEff(cd.v1, cd.v2)) {
 		return pkNew
+	}
+	if os.Getenv("VERIF_PKI_DEBUG") != "" {
+		fmt.Fprintf(os.Stderr, "state after an accepted (re)load is not the described one: got %v eff %v, want %v\n", pkStDesc(o.st), o.eff, pkDesc(cd))
 	}
 	return pkOther
 }
@@ -942,7 +950,7 @@ func genPkiReload(c *hx.Ctx) {
 		len(rows), accepted, strings.Join(items, ";\n "))
 
 	// the CA bundle: readable/unreadable x has a valid authority x has an expired one
-	caRows := []pkCaRow{{true, false, false}, {false, true, false}, {false, true, true}, {false, false, true}}
+	caRows := []pkCaRow{{true, false, false}, {false, true, false}, {false, true, true}, {false, false, true}, {false, false, false}}
 	var caItems []string
 	for _, r := range caRows {
 		out := ""
